@@ -57,6 +57,78 @@ let tsh_case id argv fs infile rb rw =
   Printf.printf "tsh %s exit=%d %s\n" id (match out with Tsh.Exit0 -> 0 | Tsh.ExitPanic -> 1)
     (Stdlib.String.concat "," (Stdlib.List.map (fun (p, c) -> p ^ ":" ^ c) files))
 
+(* ---- programs: AST dump in the harness' S-expression syntax ---- *)
+open Ast
+let str_of_bytes (b : coq_N list) : string =
+  Stdlib.String.init (Stdlib.List.length b) (fun i -> Char.chr (int_of_n (Stdlib.List.nth b i)))
+let sp = Stdlib.String.concat " "
+let d_dt = function DUnknown -> "u" | DMultiple -> "m" | DBool -> "b" | DInt -> "i" | DString -> "s"
+let d_vt t = (if t.is_slice then "[]" else "") ^ d_dt t.dt
+let d_vts ts = "(" ^ sp (Stdlib.List.map d_vt ts) ^ ")"
+let b01 b = if b then "1" else "0"
+let d_var v = Printf.sprintf "(v %s %s %s %s)" (hex_of_bytes v.v_name) (d_vt v.v_type) (b01 v.v_global) (b01 v.v_public)
+let d_vars vs = "(" ^ sp (Stdlib.List.map d_var vs) ^ ")"
+let op_bin = function OpMul -> "2a" | OpDiv -> "2f" | OpMod -> "25" | OpAdd -> "2b" | OpSub -> "2d"
+let op_cmp = function CEq -> "3d3d" | CNe -> "213d" | CLt -> "3c" | CLe -> "3c3d" | CGt -> "3e" | CGe -> "3e3d"
+let op_log = function LAnd -> "2626" | LOr -> "7c7c"
+let rec d_expr e =
+  match e with
+  | EBool b -> "(B " ^ b01 b ^ ")"
+  | EInt z -> "(I " ^ str_of_bytes (Bytestr.dec_Z z) ^ ")"
+  | EStr s -> "(S " ^ hex_of_bytes s ^ ")"
+  | EUnary e -> "(U " ^ d_expr e ^ ")"
+  | EBinary (l, op, r) -> Printf.sprintf "(Bin %s %s %s)" (op_bin op) (d_expr l) (d_expr r)
+  | ECompare (l, op, r) -> Printf.sprintf "(Cmp %s %s %s)" (op_cmp op) (d_expr l) (d_expr r)
+  | ELogical (l, op, r) -> Printf.sprintf "(Log %s %s %s)" (op_log op) (d_expr l) (d_expr r)
+  | EVar v -> "(V " ^ d_var v ^ ")"
+  | EGroup e -> "(G " ^ d_expr e ^ ")"
+  | ECall (n, rets, args) -> Printf.sprintf "(Call %s %s %s)" (hex_of_bytes n) (d_vts rets) (d_exprs args)
+  | EApp calls -> "(App " ^ sp (Stdlib.List.map (fun (n, args) -> Printf.sprintf "(%s %s)" (hex_of_bytes n) (d_exprs args)) calls) ^ ")"
+  | ESliceInst (d, vals) -> Printf.sprintf "(SI []%s %s)" (d_dt d) (d_exprs vals)
+  | ESliceEval (v, i, d) -> Printf.sprintf "(SE %s %s %s)" (d_expr v) (d_expr i) (d_dt d)
+  | ESubscript (v, s, e) -> Printf.sprintf "(Sub %s %s %s)" (d_expr v) (d_expr s) (match e with Some x -> d_expr x | None -> "-")
+  | ELen e -> "(Len " ^ d_expr e ^ ")"
+  | EInput p -> "(In " ^ (match p with Some x -> d_expr x | None -> "-") ^ ")"
+  | ECopy (d, s) -> Printf.sprintf "(Copy %s %s)" (d_var d) (d_expr s)
+  | EItoa e -> "(Itoa " ^ d_expr e ^ ")"
+  | EExists e -> "(Ex " ^ d_expr e ^ ")"
+  | ERead e -> "(Rd " ^ d_expr e ^ ")"
+and d_exprs es = "(" ^ sp (Stdlib.List.map d_expr es) ^ ")"
+let rec d_stmt s =
+  match s with
+  | SVarDef (vs, vals) -> Printf.sprintf "(Def %s %s)" (d_vars vs) (d_exprs vals)
+  | SVarDefCall (vs, c) -> Printf.sprintf "(DefC %s %s)" (d_vars vs) (d_expr c)
+  | SAssign (vs, vals) -> Printf.sprintf "(Asg %s %s)" (d_vars vs) (d_exprs vals)
+  | SAssignCall (vs, c) -> Printf.sprintf "(AsgC %s %s)" (d_vars vs) (d_expr c)
+  | SSliceAssign (v, i, x) -> Printf.sprintf "(SA %s %s %s)" (d_var v) (d_expr i) (d_expr x)
+  | SFunc (n, rets, ps, body, pub) -> Printf.sprintf "(Fn %s %s %s %s %s)" (hex_of_bytes n) (d_vts rets) (d_vars ps) (b01 pub) (d_stmts body)
+  | SReturn vals -> "(Ret " ^ d_exprs vals ^ ")"
+  | SIf (brs, els) ->
+      Printf.sprintf "(If (%s) %s)" (sp (Stdlib.List.map (fun (c, b) -> Printf.sprintf "(%s %s)" (d_expr c) (d_stmts b)) brs)) (d_stmts els)
+  | SFor (i, c, n, b) ->
+      Printf.sprintf "(For %s %s %s %s)" (match i with Some x -> d_stmt x | None -> "-") (d_expr c)
+        (match n with Some x -> d_stmt x | None -> "-") (d_stmts b)
+  | SBreak -> "Brk"
+  | SContinue -> "Cont"
+  | SPrint es -> "(Pr " ^ d_exprs es ^ ")"
+  | SPanic e -> "(Pan " ^ d_expr e ^ ")"
+  | SWrite (p, d, a) -> Printf.sprintf "(Wr %s %s %s)" (d_expr p) (d_expr d) (d_expr a)
+  | SExpr e -> "(X " ^ d_expr e ^ ")"
+and d_stmts ss = "(" ^ sp (Stdlib.List.map d_stmt ss) ^ ")"
+
+let env_of files stddir =
+  let ent e =
+    match Stdlib.String.split_on_char '.' e with
+    | [p; c; pre] -> (bytes_of_hex p, { FrontModel.fe_content = bytes_of_hex c; FrontModel.fe_prefix = bytes_of_hex pre })
+    | _ -> failwith "bad file entry" in
+  { FrontModel.e_fs = Stdlib.List.map ent (split_nonempty ',' files); FrontModel.e_stddir = bytes_of_hex stddir }
+
+let parse_case id main files stddir =
+  match FrontModel.parse_main (env_of files stddir) (bytes_of_hex main) with
+  | FrontModel.POk (body, _, _) -> Printf.printf "parse %s ok %s\n" id (d_stmts body)
+  | FrontModel.PErr -> Printf.printf "parse %s err\n" id
+  | FrontModel.PFuel -> Printf.printf "parse %s fuel\n" id
+
 let () =
   try
     while true do
@@ -65,6 +137,7 @@ let () =
       | ["lex"; id; src] -> lex_case id src
       | ["lex"; id] -> lex_case id ""
       | ["tsh"; id; argv; fs; infile; rb; rw] -> tsh_case id argv fs infile rb rw
+      | ["parse"; id; main; files; stddir] -> parse_case id main files stddir
       | [] | [""] -> ()
       | k :: _ -> Printf.printf "unknown-case-kind %s\n" k
     done
